@@ -62,7 +62,7 @@ def check(run, replay=None):
     errs = regen(["Formulas.v"], common.REPO)
     for e in errs:
         run.tie_broken("translator refused the current source (model is stale)", e)
-    ok, log, fails = common.coq_make(["theories/C08/Proofs.vo", "theories/C08/Mono.vo", "theories/C15/Proofs.vo"])
+    ok, log, fails = common.coq_make(["theories/C08/Proofs.vo", "theories/C08/Mono.vo", "theories/C15/Proofs.vo", "theories/C04/Window.vo"])
     if not ok:
         for f, ln, msg in fails:
             run.tie_broken("proof no longer checks against the regenerated formulas: %s line %s: %s" % (f, ln, common.theorem_line(f, ln)), msg)
